@@ -101,6 +101,10 @@ def build(prop, info, tier, log):
             # second tie (DESIGN §10): re-translate the Python text of the pure core into Gen/Src_*.v; the
             # property's theorem file depends on the proofs that tie these definitions to the hand model.
             # A function the translator cannot read fails alone: only the properties that need it are told.
+            try:
+                os.remove(os.path.join(VERIF, "coq", "Gen", "src_report.json"))    # never read a stale report
+            except OSError:
+                pass
             rc, out = sh("/venv/bin/python tools/py2coq.py all", 120)
             log.append(out)
             try:
